@@ -264,6 +264,12 @@ theorem C14_empty_collection_is_supplied (h : Hdr) (e : Ty) (fp fa : FT) (v : Va
   · exact (hp (.list []) v (Or.inr (Or.inl ⟨e, rfl⟩))).2.2.2 rfl hv
   · exact (hp v (.list []) (Or.inr (Or.inl ⟨e, rfl⟩))).2.2.2 hv rfl
 
+/-- regenerated (F14m): the alias copy of a field is a field of the translated type like any other, with a flag name of
+its own; when that name (or the primary one) exists on the FlagSet already, registration is skipped but the name stays
+mapped to its field, so the four patterns hold for the second `flag.Set` over one FlagSet as for the first. -/
+theorem C14_existing_flag_still_maps : Facts.flagMapRecordedBeforeSkips = true := by
+  decide
+
 /-- regenerated (F12ez): ez wraps the file decoder in the alias mangler FIRST and appends the optional tag-reformatting
 mangler (`Params.FileFieldNameEncoder`) after it, so the reformatting pass sees - and rewrites the `dials` tag of - both
 copies of an aliased field: the alias is looked up in the file's naming convention exactly like the primary name. -/
